@@ -37,6 +37,20 @@ def designer_objects_present(design, pkg):
     return None
 
 
+def port_counts(design, pkg):
+    """Every module keeps one port per declared scalar port and per leaf member of its bundle-valued ports."""
+    def leaves(bn):
+        bd = design["bundles"][bn]
+        return len(bd["sigs"]) + sum(leaves(sub[1]) for sub in bd["subs"])
+
+    for mn, md in design["modules"].items():
+        want = sum(1 if d[0] == "port" else leaves(d[2]) if d[0] == "bport" else 0 for d in md["decls"])
+        pm = [m for m in pkg.modules if m.name.split(".")[-1] == mn]
+        if len(pm) == 1 and len(pm[0].ports) != want:
+            return f"module {mn} declares {want} ports (scalar ports + leaf members of its bundle ports); the package gives it {[p.signal for p in pm[0].ports]}"
+    return None
+
+
 def _one(desc):
     import hdl21 as h
     from ..build import build
@@ -51,6 +65,9 @@ def _one(desc):
     except Exception as e:
         return fam, "raised", short_exc(e), None
     bad = designer_objects_present(design, pkg)
+    if bad:
+        return fam, "captured", bad, design
+    bad = port_counts(design, pkg)
     if bad:
         return fam, "captured", bad, design
     probs = wfmod.wf(pkg)
@@ -68,7 +85,94 @@ def _one(desc):
     return fam, "ok", None, None
 
 
+def _instbundle(item):
+    """Instance bundles over a bundle whose member names are underscore variants of one another (x, x_, x__), next to
+    designer instances / signals named like the element names `pr_<member>` the elaborator invents: the invented names
+    must also stay clear of one another.  Either an exception, or a package with one instance per member and per
+    designer instance, all under different names, each member's net on an element of its own, the designer's intact."""
+    import hdl21 as h
+
+    members, adv, advkind, order = item
+    tri = h.Bundle(name="Tri")
+    for m_ in members:
+        tri.add(h.Signal(name=m_))
+    grp = h.InstanceBundleType(name="Grp", bundle=tri)
+    leaf = h.Module(name="Leaf")
+    leaf.a, leaf.c = h.Port(), h.Port()
+    leaf.r = h.R(r=1)(p=leaf.a, n=leaf.c)
+    top = h.Module(name="Top")
+    top.vss = h.Signal()
+    top.t = tri()
+
+    def advs():
+        for k, nm in enumerate(adv):
+            top.add(h.Signal(name=f"mine{k}"))
+            if advkind == "inst":
+                top.add(leaf(a=top.get(f"mine{k}"), c=top.vss), name=nm)
+            else:
+                top.add(h.Signal(name=nm))
+                top.add(leaf(a=top.get(nm), c=top.get(f"mine{k}")), name=f"user{k}")
+
+    try:
+        if order == "before":
+            advs()
+        top.pr = grp(leaf)(a=top.t, c=top.vss)
+        if order == "after":
+            advs()
+        pkg = h.to_proto(top)
+    except Exception as e:
+        return "raised", short_exc(e)
+    probs = wfmod.wf(pkg)
+    if probs:
+        return "ill_formed", probs[0]
+    pt = [m for m in pkg.modules if m.name.split(".")[-1] == "Top"][0]
+    insts = {}
+    for i in pt.instances:
+        if i.name in insts:
+            return "captured", f"two instances named {i.name!r}"
+        insts[i.name] = {c.portname: c.target.sig for c in i.connections}
+    if len(insts) != len(members) + len(adv):
+        return "captured", f"{len(members)} members and {len(adv)} designer instances, but the package has instances {sorted(insts)}"
+    sigs = {s_.name for s_ in pt.signals}
+    for k, nm in enumerate(adv):
+        if advkind == "inst":
+            if insts.get(nm, {}).get("a") != f"mine{k}":
+                return "captured", f"designer instance {nm!r} should be on net mine{k}: {insts.get(nm)}"
+        else:
+            if nm not in sigs or insts.get(f"user{k}") != {"a": nm, "c": f"mine{k}"}:
+                return "captured", f"designer signal {nm!r} / its user changed: {insts.get(f'user{k}')}"
+    user = set(adv) if advkind == "inst" else {f"user{k}" for k in range(len(adv))}
+    driven = sorted(c.get("a") for n_, c in insts.items() if n_ not in user)
+    if len(set(driven)) != len(members) or any(c.get("c") != "vss" for n_, c in insts.items() if n_ not in user):
+        return "captured", f"each member net must feed an element of its own; the elements' `a` ports are on {driven}"
+    return "ok", None
+
+
+def instbundle_items():
+    import itertools
+
+    names = ("x", "x_", "x__")
+    out = []
+    for r in (2, 3):
+        for members in itertools.combinations(names, r):
+            for ar in (0, 1, 2, 3):
+                for adv in itertools.combinations(tuple("pr_" + n for n in names) + ("pr_x___",), ar):
+                    for advkind in ("inst", "sig"):
+                        for order in ("before", "after"):
+                            if ar == 0 and (advkind, order) != ("inst", "before"):
+                                continue
+                            out.append((members, adv, advkind, order))
+    return out
+
+
 def run(ctx):
+    for it in instbundle_items():
+        status, detail = _instbundle(it)
+        ctx.count(states=1, transitions=3, traces_validated_against_impl=1)
+        ctx.fam("instance_bundle_members", **{status: 1})
+        ctx.outcome(status + ":instance_bundle:" + it[2])
+        if status not in ("ok", "raised"):
+            ctx.violation(dict(rule="instance_bundle_members", adversary=it[2], kind=status), dict(instbundle=[list(it[0]), list(it[1]), it[2], it[3]]), detail)
     items = f8_names.items(ctx.tier)
     res = ctx.pmap(_one, items)
     for desc, (fam, status, detail, design) in zip(items, res):
@@ -88,6 +192,11 @@ def run(ctx):
 
 
 def replay(body):
+    if "instbundle" in body["case"]:
+        z = body["case"]["instbundle"]
+        r = _instbundle((tuple(z[0]), tuple(z[1]), z[2], z[3]))
+        print("replay:", r)
+        return 0 if r[0] in ("ok", "raised") else 1
     d = body["case"]["descriptor"]
     r = _one((d[0], d[1], tuple(d[2]), d[3], d[4]))
     print("replay:", r[1], r[2])
